@@ -115,10 +115,21 @@ class Effects:
                     at = attr_target(n.func.value)
                     if at:
                         effs.append(Effect("mut", at[0], at[1], n, at[2], func, op=n.func.attr, value=n.args, stmt=n))
-                if isinstance(n.func, ast.Name) and n.func.id == "setattr" and len(n.args) >= 2:
+                if isinstance(n.func, ast.Name) and n.func.id in ("setattr", "getattr") and len(n.args) >= 2:
                     a = n.args[1]
-                    nm = a.value if isinstance(a, ast.Constant) and isinstance(a.value, str) else "*"
-                    effs.append(Effect("store", recv_info(n.args[0]), nm, n, n.args[0], func, op="setattr", value=n.args[2] if len(n.args) > 2 else None, stmt=n))
+                    names = [a.value] if isinstance(a, ast.Constant) and isinstance(a.value, str) else None
+                    if names is None and isinstance(a, ast.Name):
+                        # `for name in ("a", "b"): setattr(x, name, ...)`: the literal tuple enumerates the attributes
+                        for lp in ast.walk(func.node):
+                            if isinstance(lp, ast.For) and isinstance(lp.target, ast.Name) and lp.target.id == a.id and any(x is n for x in ast.walk(lp)) \
+                                    and isinstance(lp.iter, (ast.Tuple, ast.List)) and lp.iter.elts \
+                                    and all(isinstance(x, ast.Constant) and isinstance(x.value, str) for x in lp.iter.elts):
+                                names = [x.value for x in lp.iter.elts]
+                    for nm in (names or ["*"]):
+                        if n.func.id == "setattr":
+                            effs.append(Effect("store", recv_info(n.args[0]), nm, n, n.args[0], func, op="setattr", value=n.args[2] if len(n.args) > 2 else None, stmt=n))
+                        elif nm != "*":
+                            effs.append(Effect("read", recv_info(n.args[0]), nm, n, n.args[0], func))
                 callees, resolved = ft.resolve_call(n)
                 self.stats["calls"] += 1
                 if callees:
